@@ -383,7 +383,45 @@ mut("c15-counters-wholesale", "C15", "src/counter/collection.rs", ".map(|kind| s
 mut("c15-runner-as-default", "C15", "src/divan.rs", "options = self.bench_options.overwrite(entry_options);", "options = entry_options.overwrite(&self.bench_options);")
 mut("c15-threads-zero-not-mapped", "C15", "src/divan.rs", "None => crate::util::known_parallelism(),", "None => NonZeroUsize::MIN,")
 mut("c15-ignored-flag-runs-all", "C15,C14", "src/config/mod.rs", "matches!(self, Self::Yes | Self::No)", "matches!(self, Self::Yes | Self::No | Self::Only)")
-mut("c15-child-parent-swapped", "C15", "src/divan.rs", "options = child_options.overwrite(parent_options);\n                        Some(&options)\n                    }\n                };\n\n            match child {", "XX")
+
+# ---- C16
+mut("c16-cmp-int-lexicographic", "C16", "src/util/sort.rs", """    // Compare length.
+    match a.len().cmp(&b.len()) {
+        Ordering::Equal => {}
+        ord => return ord,
+    }
+""", "")
+mut("c16-kind-flipped", "C16", "src/entry/tree.rs", """            Self::Leaf { .. } => 0,
+            Self::Parent { .. } => 1,""", """            Self::Leaf { .. } => 1,
+            Self::Parent { .. } => 0,""")
+mut("c16-location-ignores-col", "C16", "src/entry/tree.rs", "self.location().cmp(&other.location());", "self.location().map(|l| (l.file, l.line)).cmp(&other.location().map(|l| (l.file, l.line)));")
+mut("c16-reverse-groups-only", "C16", "src/entry/tree.rs", "apply_reverse(attr.cmp_bench_arg_names(a, b))", "attr.cmp_bench_arg_names(a, b)")
+mut("c16-negative-vs-positive", "C16", "src/config/mod.rs", """                                // a > b, because b is negative.
+                                break 'ordering Ordering::Greater;""", """                                // a > b, because b is negative.
+                                break 'ordering Ordering::Less;""")
+mut("c16-const-cmp-by-name", "C16", "src/entry/generic.rs", "if self.partial_cmp == other.partial_cmp {", "if false {")
+
+# ---- C20
+TP = "src/tree_painter.rs"
+mut("c20-finish-parent-truncates-2", "C20", TP, "_ = iter.by_ref().rev().nth(2);", "_ = iter.by_ref().rev().nth(1);")
+mut("c20-last-glyph-on-first", "C20", TP, """        let branch = if !is_last { "├─ " } else { "╰─ " };
+        buf.extend([self.current_prefix.as_str(), branch, name]);
+
+        // Right-pad buffer if this leaf will have info displayed.""", """        let branch = if is_last { "├─ " } else { "╰─ " };
+        buf.extend([self.current_prefix.as_str(), branch, name]);
+
+        // Right-pad buffer if this leaf will have info displayed.""")
+mut("c20-continuation-bar-dropped", "C20", TP, """            if !is_last {
+                buf.push('│');
+            }""", """            if !is_last && self.depth < 3 {
+                buf.push('│');
+            }""")
+mut("c20-ignored-still-run", "C20,C15", "src/divan.rs", """                .ignore_leaf(entry_display_name, is_last_entry);
+            return;""", """                .ignore_leaf(entry_display_name, is_last_entry);
+            if entry_display_name.len() != 3 { return; }""")
+mut("c20-thread-branch-last", "C20", "src/divan.rs", "i == thread_counts.len() - 1", "i == 0")
+mut("c20-slowest-shows-median", "C20,C05", TP, "TreeColumn::Slowest => &stats.time.slowest,", "TreeColumn::Slowest => &stats.time.median,")
+mut("c20-counter-row-uses-mean-time", "C20", TP, "let time = *column.get_stat(&stats.time)?;", "let time = stats.time.mean; let _ = column.get_stat(&stats.time)?;")
 
 def sh(cmd, **kw):
     return subprocess.run(cmd, shell=True, capture_output=True, text=True, **kw)
